@@ -277,4 +277,14 @@ theorem unmarshalBytes_total' (bs : Bytes) : (unmarshalBytes bs).isPanic = false
   | err _ => rfl
   | panic w => exact absurd h (tileLoop_ne_panic _ _ _ _ (Nat.le_refl _))
 
+/-- … whatever orientation function the polygon decoder is run with. -/
+theorem unmarshalBytesWith_total' (ori : List (Pt Int) → Int) (bs : Bytes) :
+    (unmarshalBytesWith ori bs).isPanic = false := by
+  unfold unmarshalBytesWith
+  apply unmarshal_top_total'
+  cases h : decodeTile bs with
+  | ok t => exact (unmarshal_total_ori' ori t).1
+  | err _ => rfl
+  | panic w => exact absurd h (tileLoop_ne_panic _ _ _ _ (Nat.le_refl _))
+
 end Orb.ProtoWire
